@@ -256,7 +256,9 @@ func c03r1(c *core.Ctx) {
 		fromHandle := len(conts) > 0
 		for _, cv := range conts {
 			if !core.AnySource(cv, func(s ssa.Value) bool {
-				return core.CallResult(s, 0, func(i ssa.Instruction) bool { return core.IsInvoke(i, mod+"/hap.PairVerifyHandler", "Handle") || core.IsInvoke(i, mod+"/hap.ContainerHandler", "Handle") }) != nil
+				return core.CallResult(s, 0, func(i ssa.Instruction) bool {
+					return core.IsInvoke(i, mod+"/hap.PairVerifyHandler", "Handle") || core.IsInvoke(i, mod+"/hap.ContainerHandler", "Handle")
+				}) != nil
 			}) {
 				fromHandle = false
 			}
